@@ -141,3 +141,24 @@ func VerifProducerEpoch(p interface{}) int {
 	}
 	return -1
 }
+
+// VerifStickyUserData decodes the user data a sticky-strategy member sends with JoinGroup: its previous assignment
+// and the generation it was made in (-1 when absent). ok is false when the bytes are not sticky user data.
+func VerifStickyUserData(b []byte) (topics map[string][]int32, generation int, ok bool) {
+	if len(b) == 0 {
+		return nil, -1, false
+	}
+	ud, err := deserializeTopicPartitionAssignment(b)
+	if err != nil {
+		return nil, -1, false
+	}
+	topics = map[string][]int32{}
+	for _, tp := range ud.partitions() {
+		topics[tp.Topic] = append(topics[tp.Topic], tp.Partition)
+	}
+	generation = -1
+	if ud.hasGeneration() {
+		generation = ud.generation()
+	}
+	return topics, generation, true
+}
